@@ -1,11 +1,208 @@
 import Oracle.Util
+import Wz.Model.Leb128
+import Wz.Model.Frame
+import Wz.Model.Validator
 namespace Oracle.C03
-open Oracle
+open Oracle Wz.Model.Leb128 Wz.Model.Frame Wz.Model.Validator
+open Wz.Spec.Wasm (VT FuncType)
 
-/-- Topic state (stub: no model behind this topic yet). -/
 abbrev St := Unit
 def init : St := ()
 
-def step (st : St) (_args : List String) : St × String := (st, "bad-op")
+def toBytes (ns : List Nat) : List Byte := ns.map (BitVec.ofNat 8)
+
+def showErr : Err → String
+  | .eof => "eof"
+  | .overflow => "overflow"
+
+def showN (r : R Nat) : String :=
+  match r with
+  | .ok (v, n) => s!"ok {v} {n}"
+  | .error e => showErr e
+
+def showI (r : R Int) : String :=
+  match r with
+  | .ok (v, n) => s!"ok {v} {n}"
+  | .error e => showErr e
+
+def lebOne (kind : String) (hex : String) : Option String :=
+  match parseBytes hex with
+  | none => none
+  | some ns =>
+    let bs := toBytes ns
+    match kind with
+    | "u32" => some (showN (decodeUint32 bs))
+    | "u64" => some (showN (loadUint64 bs))
+    | "i32" => some (showI (decodeInt32 bs))
+    | "i64" => some (showI (decodeInt64 bs))
+    | "i33" => some (showI (decodeInt33 bs))
+    | _ => none
+
+def hexOf (bs : List Byte) : String := bytesToHex (bs.map (·.toNat))
+
+/-! ### validator topic: token text of one function body (as emitted by harness/gen) → `TI` -/
+
+def parseVT (s : String) : Option VT :=
+  match s with
+  | "i32" => some .i32 | "i64" => some .i64 | "f32" => some .f32 | "f64" => some .f64 | _ => none
+
+def parseVTs (s : String) : Option (List VT) :=
+  if s == "-" || s == "" then some [] else (s.splitOn ",").mapM parseVT
+
+def parseBT (s : String) : Option (Option VT) :=
+  if s == "e" then some none else (parseVT s).map some
+
+/-- `i32,i64>i32;>;…` -/
+def parseTypes (s : String) : Option (List FuncType) :=
+  if s == "-" then some [] else
+  (s.splitOn ";").mapM fun t =>
+    match t.splitOn ">" with
+    | [p, r] => do pure ⟨← parseVTs p, ← parseVTs r⟩
+    | _ => none
+
+def parseGlobals (s : String) : Option (List (VT × Bool)) :=
+  if s == "-" then some [] else
+  (s.splitOn ",").mapM fun g =>
+    match g.splitOn ":" with
+    | [t, m] => do pure (← parseVT t, m == "1")
+    | _ => none
+
+def parseNatList (s : String) : Option (List Nat) :=
+  if s == "-" then some [] else (s.splitOn ",").mapM (·.toNat?)
+
+/-- memory instruction name → (type, width, signed, isLoad) -/
+def parseMemName (name : String) : Option (VT × Nat × Bool × Bool) := do
+  match name.splitOn "." with
+  | [t, op] =>
+    let vt ← parseVT t
+    let isLoad := op.startsWith "load"
+    let isStore := op.startsWith "store"
+    if !isLoad && !isStore then none
+    else
+      let sfx := if isLoad then (op.drop 4).toString else (op.drop 5).toString
+      let signed := sfx.endsWith "_s"
+      let digits := if sfx.endsWith "_s" || sfx.endsWith "_u" then (sfx.dropEnd 2).toString else sfx
+      let width := if digits == "" then vt.bits else digits.toNat?.getD 0
+      if width == 0 then none else some (vt, width, signed, isLoad)
+  | _ => none
+
+def naturalAlign (width : Nat) : Nat := if width == 8 then 0 else if width == 16 then 1 else if width == 32 then 2 else 3
+
+inductive PErr | illnested | unknown
+
+/-- strict nested parse: (instructions, remaining tokens, terminator ∈ {"end","else",""}) -/
+partial def parseSeqT (toks : List String) : Except PErr (List TI × List String × String) :=
+  match toks with
+  | [] => .ok ([], [], "")
+  | "end" :: rest => .ok ([], rest, "end")
+  | "else" :: rest => .ok ([], rest, "else")
+  | tok :: rest =>
+    let parts := tok.splitOn ":"
+    let head := parts.headD ""
+    let imm := parts.getD 1 ""
+    let hp := head.splitOn "@"
+    let name := hp.headD ""
+    let alignTxt := hp.getD 1 ""
+    let cont (i : TI) (rest : List String) : Except PErr (List TI × List String × String) := do
+      let (is, r, t) ← parseSeqT rest
+      pure (i :: is, r, t)
+    let nat (s : String) : Except PErr Nat := match s.toNat? with | some n => .ok n | none => .error .unknown
+    match name with
+    | "block" | "loop" => do
+      let bt ← match parseBT imm with | some b => pure b | none => throw PErr.unknown
+      let (body, r, t) ← parseSeqT rest
+      if t != "end" then throw PErr.illnested
+      cont (if name == "block" then .block bt body else .loop bt body) r
+    | "if" => do
+      let bt ← match parseBT imm with | some b => pure b | none => throw PErr.unknown
+      let (th, r, t) ← parseSeqT rest
+      if t == "else" then
+        let (el, r2, t2) ← parseSeqT r
+        if t2 != "end" then throw PErr.illnested
+        cont (.ite bt th el) r2
+      else if t == "end" then cont (.ite bt th []) r
+      else throw PErr.illnested
+    | "i32.const" => do cont (.const .i32 (← nat imm)) rest
+    | "i64.const" => do cont (.const .i64 (← nat imm)) rest
+    | "f32.const" => do cont (.const .f32 (← nat imm)) rest
+    | "f64.const" => do cont (.const .f64 (← nat imm)) rest
+    | "local.get" => do cont (.localGet (← nat imm)) rest
+    | "local.set" => do cont (.localSet (← nat imm)) rest
+    | "local.tee" => do cont (.localTee (← nat imm)) rest
+    | "global.get" => do cont (.globalGet (← nat imm)) rest
+    | "global.set" => do cont (.globalSet (← nat imm)) rest
+    | "memory.size" => cont .memSize rest
+    | "memory.grow" => cont .memGrow rest
+    | "memory.copy" => cont .memCopy rest
+    | "memory.fill" => cont .memFill rest
+    | "drop" => cont .drop rest
+    | "select" => cont .select rest
+    | "unreachable" => cont .unreachable rest
+    | "nop" => cont .nop rest
+    | "return" => cont .ret rest
+    | "br" => do cont (.br (← nat imm)) rest
+    | "br_if" => do cont (.brIf (← nat imm)) rest
+    | "br_table" => do
+      let ls ← match (imm.splitOn ",").mapM (·.toNat?) with | some l => pure l | none => throw PErr.unknown
+      cont (.brTable ls.dropLast (ls.getLastD 0)) rest
+    | "call" => do cont (.call (← nat imm)) rest
+    | "call_indirect" => do cont (.callIndirect (← nat imm)) rest
+    | _ =>
+      match parseMemName name with
+      | some (vt, w, sg, isLoad) => do
+        let off ← nat imm
+        let al ← if alignTxt == "" then pure (naturalAlign w) else nat alignTxt
+        cont (if isLoad then .load vt w sg al off else .store vt w al off) rest
+      | none =>
+        if (numSig name).isSome then cont (.num name) rest else .error .unknown
+
+def errClass (e : String) : String := ((e.splitOn " ").take 3).foldl (fun a b => if a == "" then b else a ++ "-" ++ b) ""
+
+def vfunc (rt hm ht types funcs globals locals results : String) (toks : List String) : String :=
+  match parseBool rt, parseBool hm, parseBool ht, parseTypes types, parseNatList funcs, parseGlobals globals,
+        parseVTs locals, parseVTs results with
+  | some rt, some hm, some ht, some types, some funcs, some globals, some locals, some results =>
+    let C : Ctx := { types := types, funcs := funcs, globals := globals, hasMem := hm, hasTable := ht,
+                     locals := locals, results := results, refTypes := rt }
+    match parseSeqT toks with
+    | .error .illnested => "illnested"
+    | .error .unknown => "bad-op"
+    | .ok (body, [], "") =>
+      match check C body with
+      | .ok _ => if alignSane body then "ok sane" else "ok align-quirk"
+      | .error e => "err " ++ errClass e
+    | .ok _ => "illnested"
+  | _, _, _, _, _, _, _, _ => "bad-op"
+
+def step (st : St) (args : List String) : St × String :=
+  match args with
+  | ["leb", kind, hex] =>
+    match lebOne kind hex with
+    | some s => (st, s)
+    | none => (st, "bad-op")
+  | "lebs" :: kind :: hexes =>
+    match hexes.mapM (lebOne kind) with
+    | some ss => (st, ";".intercalate ss)
+    | none => (st, "bad-op")
+  | ["enc", "u", v] =>
+    match parseNat v with
+    | some v => (st, hexOf (encU v))
+    | none => (st, "bad-op")
+  | ["enc", "s", v] =>
+    match parseInt v with
+    | some v => (st, hexOf (encS v))
+    | none => (st, "bad-op")
+  | "vfunc" :: rt :: hm :: ht :: types :: funcs :: globals :: locals :: results :: toks =>
+    (st, vfunc rt hm ht types funcs globals locals results toks)
+  | ["frame", hex] =>
+    match parseBytes hex with
+    | none => (st, "bad-op")
+    | some ns =>
+      let bs := toBytes ns
+      let a := frame .asIs bs
+      let c := frame .capped bs
+      let secs := ",".intercalate (a.secs.map (fun s => s!"{s.id}:{s.size}:{s.count}"))
+      (st, s!"{a.verdict} {a.alloc} {c.alloc} {a.stopId} [{secs}]")
+  | _ => (st, "bad-op")
 
 end Oracle.C03
